@@ -33,7 +33,7 @@ CLAIMED = {
     ),
     "C17": (
         "runtime reference-model monitor: f64 Bernstein form and derivative as oracle for eval/fast_eval/tangent; for approximate() the aligned dyadic partition of [0,1] is fitted bit-for-bit to the returned polyline and every fitted piece must meet the caller's criterion (the halt closure is harness code: evaluated by the monitor on curve(mid) − chord midpoint, or found as a true call in its log) or sit at the deepest level present",
-        "Control polygons of six types (f32, Vec2/3, Point2/3, Color4f) over magnitudes 1e-3..1e4 incl. coincident, collinear, repeated and lattice controls: cubic Bézier at parameters from a palette (<0, 0, ±ulp, 1, >1, random, NaN) — both evaluators vs Bernstein (1e-5·max|control|), exact end points at and beyond the ends, control bounding box, tangent vs derivative; splines of 1..8 segments at every join k/n and its two f32 neighbours plus the palette — equals the segment's cubic, passes through every third control point, exact ends, no panic for any t; approximate() with halt ∈ {always, never, NaN-comparison, thresholds}: first/last point = first/last control point bit-for-bit, points = curve points at strictly increasing aligned dyadic parameters (fitted partition, bit-for-bit), every piece met the criterion or sits at the depth bound (the deepest level present; its value is recorded, not fixed); curves with repeated point values make parameters ambiguous and are counted, not judged.",
+        "Control polygons of six types (f32, Vec2/3, Point2/3, Color4f) over magnitudes 1e-3..1e4 incl. coincident, collinear, repeated and lattice controls: cubic Bézier at parameters from a palette (<0, 0, ±ulp, 1, >1, random, NaN) — both evaluators vs Bernstein (1e-5·max|control|), exact end points at and beyond the ends, control bounding box, tangent vs derivative; splines of 1..8 segments at every join k/n and its two f32 neighbours plus the palette — equals the segment's cubic, passes through every third control point, exact ends, no panic for any t; approximate() with halt ∈ {always, never, NaN-comparison, thresholds}: first/last point = first/last control point bit-for-bit, points = curve points at strictly increasing aligned dyadic parameters (fitted partition, bit-for-bit), every piece met the criterion or sits at the depth bound (measured by a never-halting call on a quarter of the cases, else the deepest level present; its value is recorded, not fixed); curves with repeated point values make parameters ambiguous and are counted, not judged.",
         "Tolerances: 1e-5·max|control| (splines: 2e-5 plus a segment-parameter rounding term), tangents 12×. Spline tangent is w.r.t. the segment-local parameter, as the code documents.",
         "DESIGN.md §5 C17",
     ),
